@@ -14,6 +14,7 @@ V: the driver performs the real calls (Agg backend, directory under .work/C20), 
 import math
 import os
 import pathlib
+import re
 import shutil
 import struct
 import warnings
@@ -43,7 +44,10 @@ _REAL = {}
 
 
 def tofloat(co):
-    """contour.coordinates as a float (N, ndim) array, whatever container the class uses"""
+    """contour.coordinates as a float (N, ndim) array, whatever container the class uses
+    (a list of regions, each a list of per-dimension arrays, is concatenated in order)"""
+    if isinstance(co, list) and co and isinstance(co[0], (list, tuple)) and len(co[0]) and np.ndim(co[0][0]) == 1:
+        return np.concatenate([np.array(p, dtype=float).T for p in co])
     try:
         a = np.asarray(co, dtype=float)
         if a.ndim == 2:
@@ -79,6 +83,35 @@ def real_contour(vc, obj, seed):
             c = vc.ISORMContour(model, alpha, n_points=int(rng.integers(10, 60)))
         elif obj == "hdc":
             c = vc.HighestDensityContour(model, alpha, limits=[(0, 20), (0, 20)], deltas=[0.5, 0.5])
+        elif obj == "hdc_multiregion":
+            # truly bimodal 2-D density: y|x is very wide in a narrow strip around x = 5
+            def _sig(x, a=0.3, b=8.0, c=5.0, d=0.02):
+                return a + b * np.exp(-((x - c) ** 2) / d)
+
+            def _mu(x, a=5.0):
+                return a + 0 * x
+            m2 = vc.GlobalHierarchicalModel([
+                {"distribution": vc.NormalDistribution(mu=5, sigma=1.5)},
+                {"distribution": vc.NormalDistribution(), "conditional_on": 0,
+                 "parameters": {"mu": vc.DependenceFunction(_mu), "sigma": vc.DependenceFunction(_sig)}}])
+            c = vc.HighestDensityContour(m2, 0.1, limits=[(0, 10), (0, 10)], deltas=0.05)
+        elif obj == "hdc_multiregion3d":
+            # ordinary unimodal 3-D hierarchy on a slightly coarse grid: a 2-cell island remains
+            def _lin(x, a=1.0, b=0.5):
+                return a + b * x
+
+            def _c03(x, a=0.3):
+                return a + 0 * x
+
+            def _c05(x, a=0.5):
+                return a + 0 * x
+            m3 = vc.GlobalHierarchicalModel([
+                {"distribution": vc.WeibullDistribution(alpha=2, beta=1.5, gamma=0.1)},
+                {"distribution": vc.LogNormalDistribution(), "conditional_on": 0,
+                 "parameters": {"mu": vc.DependenceFunction(_lin), "sigma": vc.DependenceFunction(_c03)}},
+                {"distribution": vc.NormalDistribution(), "conditional_on": 1,
+                 "parameters": {"mu": vc.DependenceFunction(_lin), "sigma": vc.DependenceFunction(_c05)}}])
+            c = vc.HighestDensityContour(m3, 0.1, limits=[(0, 6), (0, 30), (0, 20)], deltas=[0.5, 1, 1])
         elif obj == "ds":
             c = vc.DirectSamplingContour(model, alpha, sample=sample, deg_step=int(rng.choice([5, 10, 24])))
         elif obj == "and":
@@ -126,6 +159,8 @@ def save_record(vc, case, workdir):
     else:
         contour = real_contour(vc, case["obj"], case["seed"])
         coords = tofloat(contour.coordinates)
+        if case["obj"].startswith("hdc_multiregion") and not isinstance(contour.coordinates, list):
+            raise Machinery("the multi-region highest density contour has a single region")
     path = from_cps(case["path"])
     d = workdir / f"s{case['idx']}_{case['seed']}"
     if d.exists():
@@ -153,12 +188,12 @@ def save_record(vc, case, workdir):
             raw = (d / new[0]).read_bytes()
             text = raw.decode("utf-8")
             rec["endsnl"] = text.endswith("\n")
-            lines = text.split("\n")
+            lines = re.split("\r\n|\n|\r", text)          # the lines a reader sees
             if lines and lines[-1] == "":
                 lines = lines[:-1]
             rec["lines"] = [cps(ln) for ln in lines]
             parsed = []
-            for ln in lines[1:]:
+            for ln in lines[max(1, len(lines) - len(coords)):]:     # the data rows are the last lines
                 row = []
                 for f in ln.split(";"):
                     try:
@@ -222,9 +257,15 @@ def plot_record(vc, case):
     try:
         with warnings.catch_warnings():
             warnings.simplefilter("ignore")
-            if dckind == "array":
+            if dckind in ("array", "list", "tuple", "tuples"):
                 dc_arg = rng.uniform(0, 10, size=(int(rng.integers(1, 8)), 2))
                 dcexp = dc_arg.copy()
+                if dckind == "list":
+                    dc_arg = dc_arg.tolist()
+                elif dckind == "tuple":
+                    dc_arg = tuple(tuple(row) for row in dc_arg.tolist())
+                elif dckind == "tuples":
+                    dc_arg = [tuple(row) for row in dc_arg.tolist()]
             elif dckind == "true":
                 dc_arg = True
                 dcexp = np.asarray(calculate_design_conditions(contour, swap_axis=swap), dtype=float)
@@ -509,6 +550,25 @@ def other_plots(vc, ctx, name, model, data, sem):
 # ----------------------------------------------------------------------------------
 
 
+def design_record(vc, case):
+    """calculate_design_conditions on a real contour object: the result depends on nothing but the
+    coordinates (same call on a stand-in with the same points); that it is the top ordinate is C17"""
+    from virocon.utils import calculate_design_conditions
+    rec = dict(kind="arrays", clause="DesignConditionsOfContourObject", got=[], want=[], tol=0, exc="")
+    try:
+        with warnings.catch_warnings():
+            warnings.simplefilter("ignore")
+            contour = real_contour(vc, case["obj"], case["seed"])
+            got = np.asarray(calculate_design_conditions(contour, swap_axis=bool(case["swap"])), dtype=float)
+            want = np.asarray(calculate_design_conditions(StandIn(tofloat(contour.coordinates)),
+                                                          swap_axis=bool(case["swap"])), dtype=float)
+        rec["got"] = [Qc(v, 1e6) for v in got.ravel()]
+        rec["want"] = [Qc(v, 1e6) for v in want.ravel()]
+    except Exception as e:  # noqa
+        rec["exc"] = f"{type(e).__name__}: {e}"[:160]
+    return rec
+
+
 def key_of(case):
     if case["fn"] == "save":
         return (f"save contour={case.get('obj', 'standin')} npts={case['npts']} ndim={case['ndim']} sem={case['sem']} "
@@ -517,6 +577,8 @@ def key_of(case):
         return (f"plot_2D_contour contour={case.get('obj', 'standin')} npts={case['npts']} swap={case['swap']} "
                 f"design_conditions={case['dc']} "
                 f"sample={case['sample']} sem={case['sem']} ax={'given' if case['axgiven'] else 'None'} seed={case['seed']}")
+    if case["fn"] == "design":
+        return f"design contour={case['obj']} swap={case['swap']} seed={case['seed']}"
     if case["fn"] == "dataset":
         return (f"read_ec_benchmark_dataset rows={case['n']} cols={case['ncol']} order={case['order']} "
                 f"digits={case.get('precision', '4dec')}"
@@ -555,7 +617,13 @@ def selftest_records():
     put(save, ["PathRule"], path=cps("d.v1/out.dat"), created=cps("d.v1/out.dat.txt"))
     put(save, [], path=cps(".hid"), created=cps(".hid.txt"))
     put(save, ["HeaderLine"], lines=[cps("a;b ( );höhe (m)"), cps("-0.000000;1.234568")])
-    put(save, ["RowCount", "RowText", "ParsedRound6"], lines=[cps("a;b ();höhe (m)")], parsed=[])
+    put(save, ["OneHeaderLine", "RowCount", "RowText", "ParsedRound6"], lines=[cps("a;b ();höhe (m)")], parsed=[])
+    brk = dict(save, names=[cps("a\nb"), cps("höhe\r\n")], units=[cps("\rx"), cps("m")])
+    put(brk, [], lines=[cps("a b ( x);höhe  (m)"), cps("-0.000000;1.234568")])
+    put(brk, [], lines=[cps("a b (x);höhe (m)"), cps("-0.000000;1.234568")])
+    put(brk, ["OneHeaderLine", "RowCount", "RowText", "HeaderLine"],
+        lines=[cps("a"), cps("b ("), cps("x);höhe"), cps(" (m)"), cps("-0.000000;1.234568")])
+    put(brk, ["HeaderLine"], lines=[cps("a b (x);hohe (m)"), cps("-0.000000;1.234568")])
     put(save, ["RowText"], lines=[cps("a;b ();höhe (m)"), cps("-0.00000;1.23457")])
     put(save, ["RowText"], lines=[cps("a;b ();höhe (m)"), cps("0.000000;1.234568")])
     put(save, ["RowText"], lines=[cps("a;b ();höhe (m)"), cps("-0.000000,1.234568")])
@@ -590,6 +658,8 @@ def execute(vc, ctx, case):
         return plot_record(vc, case)
     if case["fn"] == "dataset":
         return dataset_record(vc, case, ctx.work / "files")
+    if case["fn"] == "design":
+        return design_record(vc, case)
     raise Machinery(f"unknown case {case}")
 
 
@@ -626,9 +696,12 @@ def run(ctx):
     import matplotlib
     matplotlib.use("Agg")
     ctx.rule = ("TLC enumerates every configuration: save_contour_coordinates: 1-4 points x 2-D/3-D x semantics None or "
-                "8 string assignments over {'Hs','Wave height','a;b','höhe','θ','m²','','x (y)'} x 10 paths "
+                "13 string assignments over {'Hs','Wave height','a;b','höhe','θ','m²','','x (y)', and five strings with "
+                "LF / CR LF / CR line breaks inside, leading, trailing} x 10 paths "
                 "(with/without extension, dotted directories, hidden files, trailing dot, spaces); plot_2D_contour: 1-4 "
-                "points x swap_axis x design_conditions None/True/array x sample x semantics x ax; the driver supplies "
+                "points x swap_axis x design_conditions None/True/ndarray/list/tuple/list of tuples x sample x semantics x ax; "
+                "real contour objects of all 2-D classes incl. a multi-region highest density contour (2-D; 3-D for "
+                "saving) through save / plot / calculate_design_conditions; the driver supplies "
                 "seeded coordinates incl. rounding ties, negative zero, 7+ decimals (quick 1, thorough 6 data seeds); "
                 "plus read_ec_benchmark_dataset on synthetic files (1..1e4 rows, hourly/gaps/unordered, 2-3 columns; fresh "
                 "paths and ONE path rewritten with different datasets and re-read after every rewrite) and "
@@ -639,13 +712,14 @@ def run(ctx):
                    "matplotlib artist getters (Line2D.get_xydata, PathCollection.get_offsets, Polygon.get_xy)",
                    "recording wrappers around model.marginal_icdf and Axes.contour (pass-through)"]
     ctx.assumptions = ["|coordinates| < 2000 so that value * 1e6 fits TLC's 32-bit integers",
-                       "semantics strings are single-line printable text",
+                       "semantics strings are printable text, possibly with LF / CR LF / CR line breaks",
                        "contour objects for save/plot are stand-ins with a .coordinates attribute"]
     ctx.model_check("Export", ctx.pick("MC_Export_quick.cfg", "MC_Export_thorough.cfg"),
                     must_cover=("ResolvePath", "Write", "ReadBack", "Draw"))
     ctx.model_check("Export", "MC_Export_fmt5.cfg", expect_violation="ParsedIsRound6")
     ctx.model_check("Export", "MC_Export_noclose.cfg", expect_violation="ClosedPolyline")
     ctx.model_check("Export", "MC_Export_alwaystxt.cfg", expect_violation="PathRule")
+    ctx.model_check("Export", "MC_Export_rawheader.cfg", expect_violation="OneHeaderLine")
     gen = ctx.generate("Export", "Gen_Export.cfg")
     gen.sort(key=lambda g: str(sorted(g.items())))
     cases = []
